@@ -9,7 +9,7 @@
    (vplib/props/c12.py), not by these theorems; panic sites outside the modelled functions are counted, not proved. *)
 From Coq Require Import List ZArith NArith Bool Arith.
 From PV Require Import Lib.ListX Model.Checked Model.RangeArith Model.WidthArith Model.ReviewedSites Model.Span
-  Model.CheckedNest Model.SitesBaseline Model.Closure Model.ParseRetry Model.Rq Model.RqWf
+  Model.CheckedNest Model.SitesBaseline Model.Closure Model.ParseRetry Model.Rq Model.RqWf Model.RqAgg
   Proofs.ClosureProofs Proofs.ParseRetryProofs Proofs.RqWfProofs Gen.GenUnpack
   Proofs.CheckedProofs Proofs.RangeArithProofs Proofs.WidthArithProofs Proofs.ReviewedSitesProofs Proofs.SpanProofs
   Proofs.CheckedNestProofs Gen.GenSites.
@@ -331,10 +331,23 @@ Print Assumptions c12_parse_linear_refuted.
    panic on a mutated RQ document as N3 only if the document is NOT rq_wf (evaluated by C16's mirror
    vplib/props/c16_wf.py, which C16 cross-validates against this definition on every run); a panic on a document that
    satisfies it is a VIOLATION (or one of the narrower findings C12-N16 / N17 / N18: operator shape, nameless referenced column,
-   aggregate partitioned by its own result -- what rq_wf does not speak about). *)
+   aggregate partitioned by its own result -- what rq_wf does not speak about; the last one is rq_agg_ok below). *)
+Definition staged_rq_ok (q : rq) : bool := rq_wf q && rq_agg_ok q.
+
 Theorem c12_rq_lookups_total_under_wf : forall q, rq_wf q = true -> lookups_total q.
 Proof. intros q H. apply wf_lax_lookups_total. apply wf_implies_wf_lax. exact H. Qed.
 Print Assumptions c12_rq_lookups_total_under_wf.
+
+(* the staged-API precondition the classifier evaluates: C16's rq_wf and, since finding C12-N18 (an Aggregate partitioned
+   by a column it computes; Model/RqAgg.v, provided by C16; repaired by the guard of commit f30b660), rq_agg_ok *)
+Theorem c12_rq_staged_precondition : forall q, staged_rq_ok q = true ->
+  lookups_total q /\ agg_overlaps q = [].
+Proof.
+  intros q H. unfold staged_rq_ok in H. apply andb_true_iff in H as [H1 H2]. split.
+  - apply c12_rq_lookups_total_under_wf. exact H1.
+  - unfold rq_agg_ok in H2. destruct (agg_overlaps q); [reflexivity | discriminate].
+Qed.
+Print Assumptions c12_rq_staged_precondition.
 
 (* ------------------------------------------------------------------ nesting is unbounded in the input size *)
 Theorem c12_unbounded_depth : forall d, length (nest d) = 2 * d + 1 /\ bracket_depth (nest d) = d.
@@ -401,3 +414,11 @@ Example c12_ex_n3_not_wf :
   rq_wf (mkRq [(mkTable 0 None (mkRel (KExternRef [[116]]) [RWildcard]))]
      (mkRel (KPipeline [(TFrom (mkTRef 0 [(RWildcard, 0)] (Some [116]))); (TTake (None, (Some ELit)) [] [(Asc, 77)]); (TSelect [0])]) [RWildcard]))%N = false.
 Proof. split; vm_compute; reflexivity. Qed.
+(* the witness of C12-N18: every id defined and visible (rq_wf), partitioned by its own aggregate (not rq_agg_ok) *)
+Example c12_ex_n18_precondition :
+  let q := (mkRq [(mkTable 0 None (mkRel (KExternRef [[116]]) [RWildcard]))]
+     (mkRel (KPipeline [(TFrom (mkTRef 0 [(RWildcard, 0)] (Some [116])));
+                        (TCompute 1 (ENode (KOp [115;116;100;46;99;111;117;110;116]) [ELit]) None true);
+                        (TAggregate [1] [1]); (TSelect [1])]) [RSingle (Some [110])]))%N in
+  rq_wf q = true /\ rq_agg_ok q = false /\ staged_rq_ok q = false.
+Proof. repeat split; vm_compute; reflexivity. Qed.
